@@ -92,6 +92,22 @@ pub enum Expression {
   FnName(FunctionName, FunctionType),
 }
 
+/// Variable names come from the source program. The ones that are reserved words of the emitted
+/// TypeScript get a suffix that neither a source name nor a generated name can have.
+const TS_RESERVED_WORDS: [&str; 47] = [
+  "arguments", "await", "break", "case", "catch", "class", "const", "continue", "debugger", "default", "delete",
+  "do", "else", "enum", "eval", "export", "extends", "false", "finally", "for", "function", "if", "implements",
+  "import", "in", "instanceof", "interface", "let", "new", "null", "package", "private", "protected", "public",
+  "return", "static", "super", "switch", "this", "throw", "true", "try", "typeof", "var", "void", "while", "with",
+];
+
+fn push_variable_name(collector: &mut String, name: &str) {
+  collector.push_str(name);
+  if TS_RESERVED_WORDS.contains(&name) {
+    collector.push('$');
+  }
+}
+
 impl Expression {
   pub fn int32(value: i32) -> Self {
     Self::Int32Literal(value)
@@ -110,7 +126,7 @@ impl Expression {
         let i32_form = i * 2 + 1;
         collector.push_str(&i32_form.to_string())
       }
-      Self::Variable(n, _) => collector.push_str(n.as_str(heap)),
+      Self::Variable(n, _) => push_variable_name(collector, n.as_str(heap)),
       Self::StringName(n) => {
         collector.push_str("GLOBAL_STRING_");
         collector.push_str(&str_table.get(n).unwrap().to_string());
@@ -245,7 +261,7 @@ impl Statement {
       Self::IsPointer { name, pointer_type: _, operand } => {
         Self::append_spaces(collector, level);
         collector.push_str("let ");
-        collector.push_str(name.as_str(heap));
+        push_variable_name(collector, name.as_str(heap));
         collector.push_str(" = typeof ");
         operand.pretty_print(collector, heap, symbol_table, str_table);
         collector.push_str(" === 'object';\n");
@@ -253,7 +269,7 @@ impl Statement {
       Self::Not { name, operand } => {
         Self::append_spaces(collector, level);
         collector.push_str("let ");
-        collector.push_str(name.as_str(heap));
+        push_variable_name(collector, name.as_str(heap));
         collector.push_str(" = !");
         operand.pretty_print(collector, heap, symbol_table, str_table);
         collector.push_str(";\n");
@@ -261,7 +277,7 @@ impl Statement {
       Self::Binary { name, operator, e1, e2 } => {
         Self::append_spaces(collector, level);
         collector.push_str("let ");
-        collector.push_str(name.as_str(heap));
+        push_variable_name(collector, name.as_str(heap));
         collector.push_str(" = ");
         match *operator {
           BinaryOperator::DIV => {
@@ -321,7 +337,7 @@ impl Statement {
       Self::IndexedAccess { name, type_, pointer_expression, index } => {
         Self::append_spaces(collector, level);
         collector.push_str("let ");
-        collector.push_str(name.as_str(heap));
+        push_variable_name(collector, name.as_str(heap));
         collector.push_str(": ");
         type_.pretty_print(collector, heap, symbol_table);
         collector.push_str(" = ");
@@ -334,7 +350,7 @@ impl Statement {
         Self::append_spaces(collector, level);
         if let Some(c) = return_collector {
           collector.push_str("let ");
-          collector.push_str(c.as_str(heap));
+          push_variable_name(collector, c.as_str(heap));
           collector.push_str(": ");
           return_type.pretty_print(collector, heap, symbol_table);
           collector.push_str(" = ");
@@ -348,7 +364,7 @@ impl Statement {
         for (n, t, _, _) in final_assignments {
           Self::append_spaces(collector, level);
           collector.push_str("var ");
-          collector.push_str(n.as_str(heap));
+          push_variable_name(collector, n.as_str(heap));
           collector.push_str(": ");
           t.pretty_print(collector, heap, symbol_table);
           collector.push_str(";\n");
@@ -369,7 +385,7 @@ impl Statement {
         }
         for (n, _, v1, _) in final_assignments {
           Self::append_spaces(collector, level + 1);
-          collector.push_str(n.as_str(heap));
+          push_variable_name(collector, n.as_str(heap));
           collector.push_str(" = ");
           v1.pretty_print(collector, heap, symbol_table, str_table);
           collector.push_str(";\n");
@@ -388,7 +404,7 @@ impl Statement {
         }
         for (n, _, _, v2) in final_assignments {
           Self::append_spaces(collector, level + 1);
-          collector.push_str(n.as_str(heap));
+          push_variable_name(collector, n.as_str(heap));
           collector.push_str(" = ");
           v2.pretty_print(collector, heap, symbol_table, str_table);
           collector.push_str(";\n");
@@ -420,7 +436,7 @@ impl Statement {
       Self::Break(break_value) => {
         if let Some((break_collector_str, _)) = break_collector {
           Self::append_spaces(collector, level);
-          collector.push_str(break_collector_str.as_str(heap));
+          push_variable_name(collector, break_collector_str.as_str(heap));
           collector.push_str(" = ");
           break_value.pretty_print(collector, heap, symbol_table, str_table);
           collector.push_str(";\n");
@@ -432,7 +448,7 @@ impl Statement {
         for v in loop_variables {
           Self::append_spaces(collector, level);
           collector.push_str("let ");
-          collector.push_str(v.name.as_str(heap));
+          push_variable_name(collector, v.name.as_str(heap));
           collector.push_str(": ");
           v.type_.pretty_print(collector, heap, symbol_table);
           collector.push_str(" = ");
@@ -442,7 +458,7 @@ impl Statement {
         if let Some((n, t)) = break_collector {
           Self::append_spaces(collector, level);
           collector.push_str("let ");
-          collector.push_str(n.as_str(heap));
+          push_variable_name(collector, n.as_str(heap));
           collector.push_str(": ");
           t.pretty_print(collector, heap, symbol_table);
           collector.push_str(";\n");
@@ -461,7 +477,7 @@ impl Statement {
         }
         for v in loop_variables {
           Self::append_spaces(collector, level + 1);
-          collector.push_str(v.name.as_str(heap));
+          push_variable_name(collector, v.name.as_str(heap));
           collector.push_str(" = ");
           v.loop_value.pretty_print(collector, heap, symbol_table, str_table);
           collector.push_str(";\n");
@@ -472,7 +488,7 @@ impl Statement {
       Self::Cast { name, type_, assigned_expression } => {
         Self::append_spaces(collector, level);
         collector.push_str("let ");
-        collector.push_str(name.as_str(heap));
+        push_variable_name(collector, name.as_str(heap));
         collector.push_str(" = ");
         assigned_expression.pretty_print(collector, heap, symbol_table, str_table);
         collector.push_str(" as unknown as ");
@@ -482,14 +498,14 @@ impl Statement {
       Self::LateInitDeclaration { name, type_ } => {
         Self::append_spaces(collector, level);
         collector.push_str("let ");
-        collector.push_str(name.as_str(heap));
+        push_variable_name(collector, name.as_str(heap));
         collector.push_str(": ");
         type_.pretty_print(collector, heap, symbol_table);
         collector.push_str(" = undefined as any;\n");
       }
       Self::LateInitAssignment { name, assigned_expression } => {
         Self::append_spaces(collector, level);
-        collector.push_str(name.as_str(heap));
+        push_variable_name(collector, name.as_str(heap));
         collector.push_str(" = ");
         assigned_expression.pretty_print(collector, heap, symbol_table, str_table);
         collector.push_str(";\n");
@@ -497,7 +513,7 @@ impl Statement {
       Self::StructInit { struct_variable_name, type_, expression_list } => {
         Self::append_spaces(collector, level);
         collector.push_str("let ");
-        collector.push_str(struct_variable_name.as_str(heap));
+        push_variable_name(collector, struct_variable_name.as_str(heap));
         collector.push_str(": ");
         type_.pretty_print(collector, heap, symbol_table);
         collector.push_str(" = [");
@@ -529,12 +545,12 @@ impl Function {
     collector.push('(');
     let mut iter = self.parameters.iter().zip(&self.type_.argument_types);
     if let Some((n, t)) = iter.next() {
-      collector.push_str(n.as_str(heap));
+      push_variable_name(collector, n.as_str(heap));
       collector.push_str(": ");
       t.pretty_print(collector, heap, symbol_table);
       for (n, t) in iter {
         collector.push_str(", ");
-        collector.push_str(n.as_str(heap));
+        push_variable_name(collector, n.as_str(heap));
         collector.push_str(": ");
         t.pretty_print(collector, heap, symbol_table);
       }
